@@ -82,14 +82,14 @@ def make_filter(spec):
     mask = spec["mask"]
     if spec["ft"] == "edge":
         return lambda l, o=None: (mask >> (l % 16)) & 1 == 1
-    return lambda l, o=0: (mask >> ((l * 3 + o) % 16)) & 1 == 1
+    return lambda l, o=0: (mask >> ((l * 3 + (-1 if o is None else o)) % 16)) & 1 == 1   # o None: unassigned end
 
 
 def real_filter2(f, vi, li, falsy=False):
     """filterfunc(edge, vertex) for neighbors()/ff_via from an int filter."""
     if f is None:
         return None
-    fn = lambda e, v: f(li[id(e)], vi[id(v)])
+    fn = lambda e, v: f(li[id(e)], vi.get(id(v), -1))    # v is None for a link with an unassigned end
     if falsy:
         from eglib import classes as C
 
